@@ -63,6 +63,7 @@ Definition complies (f : lockfact) : bool :=
   | AOps => match lf_locks f with [] => true | _ => false end          (* the implementation is never called with a library mutex held *)
   | ASend | ARecv | AClose => match lf_locks f with [] => true | _ => false end   (* no channel operation under a mutex *)
   | AGo | ACall => true
+  | AHeldRet => false      (* no function returns with a mutex still held (deferred unlocks excepted) *)
   end.
 
 Definition violations : list lockfact := filter (fun f => negb (complies f)) lock_facts.
